@@ -218,7 +218,11 @@ class Run:
         shutil.copy(os.path.join(REPO, "go.sum"), os.path.join(h, "go.sum"))
         out = os.path.join(self.work, "drv")
         t = time.time()
-        p = subprocess.run(["go", "build", "-tags", "verif", "-o", out, "./cmd/drv"], cwd=h, env=go_env(),
+        tags = "verif"
+        # optional hooks: a driver file guarded by tag verif_<h> is compiled in only when /repo carries that hook
+        if os.path.exists(os.path.join(REPO, "pkg/controllers/provisioning/scheduling/hooks_verif.go")):
+            tags += ",verif_h1"
+        p = subprocess.run(["go", "build", "-tags", tags, "-o", out, "./cmd/drv"], cwd=h, env=go_env(),
                            stdout=subprocess.PIPE, stderr=subprocess.STDOUT, text=True, timeout=1500)
         if p.returncode != 0:
             raise InfraError("harness build failed:\n" + p.stdout[-4000:])
